@@ -61,7 +61,7 @@ def selcfg(name, kind, kv, gl, plans, sample=None, svals=ALLV, eqpats=ALLV, repa
     max series, max matchers) exported on top"""
     sample = sample or (0, 0, 1, 1)
     return {'name': name, 'kind': kind, 'kv': kv, 'gl': gl, 'maxseries': max(p[0] for p in plans), 'maxmatchers': max(p[1] for p in plans),
-            'plans': '{' + ', '.join('<<%d, %d>>' % p for p in plans) + '}', 'svals': svals,
+            'plans': '{' + ', '.join('%d' % (100 * p[0] + p[1]) for p in plans) + '}', 'svals': svals,
             'eqpats': eqpats, 'repats': repats, 'ops': ops, 'allowempty': 'TRUE' if kind == 'prof' else 'FALSE',
             'alwaysrow': 'TRUE' if kind == 'prof' else 'FALSE', 'sampledb': sample[0], 'samplems': sample[1], 'sampleseries': sample[2],
             'samplematchers': sample[3], 'outfile': name + '.json', 'bounds': {'plans': plans, 'sample': sample}}
